@@ -1,14 +1,255 @@
-(* C18 - swarm invariants (placeholder while the correspondence is being built). *)
-From Coq Require Import List ZArith Bool.
-From Artap Require Import Base.Ord Model.Swarm.
+(* C18 - Swarm: personal best never regresses, velocity clamped, leader set bounded.
+   Property theorems only; each is closed by `exact`, followed by Print Assumptions. *)
+From Coq Require Import List ZArith Bool Floats Arith Lia.
+From Artap Require Import Base.Ord Base.FloatInst Base.QInst Model.Dominance Model.Archive Model.Variation Model.Swarm
+  Proofs.DominanceProofs Proofs.ArchiveProofs Proofs.ArchiveParetoInst Proofs.VariationProofs Proofs.SwarmProofs.
 Import ListNotations.
 
-Theorem C18_pbest_never_regresses : forall {T} (cmp : scost (T:=T) -> scost -> nat) p b,
-  (cmp (p_cost p) (fst b) = 2 -> pbest_step cmp p b = b) /\
-  (cmp (p_cost p) (fst b) <> 2 -> pbest_step cmp p b = (p_cost p, p_vec p)).
-Proof.
-  intros T cmp p b. unfold pbest_step. split; intros E.
-  - rewrite E. reflexivity.
-  - destruct (Nat.eqb (cmp (p_cost p) (fst b)) 2) eqn:F; [apply Nat.eqb_eq in F; contradiction | reflexivity].
-Qed.
+(* ------------------------------------------------------------------------------------------------
+   personal best: update_particle_best *)
+Section C18_pbest.
+  Context {T : Type}.
+
+  (* whatever the comparator: the record is kept when its verdict is 2 ("best_cost dominates"),
+     and replaced by the particle's position in every other case *)
+  Theorem C18_pbest_never_regresses : forall (cmp : scost (T:=T) -> scost (T:=T) -> nat) p b,
+    (cmp (p_cost p) (fst b) = 2 -> pbest_step cmp p b = b) /\
+    (cmp (p_cost p) (fst b) <> 2 -> pbest_step cmp p b = (p_cost p, p_vec p)).
+  Proof. exact pbest_step_spec. Qed.
+
+  Context (ltb : T -> T -> bool) (H : SWO ltb).
+
+  (* with self.dominance = ParetoDominance(): kept exactly when the old best dominates the new position *)
+  Theorem C18_pbest_never_regresses_pareto : forall p b,
+    (pareto_compare ltb (fst b) (p_cost p) = 1 -> pbest_step (pareto_compare ltb) p b = b) /\
+    (pareto_compare ltb (fst b) (p_cost p) <> 1 -> pbest_step (pareto_compare ltb) p b = (p_cost p, p_vec p)).
+  Proof. exact (pbest_pareto_verdict ltb H). Qed.
+
+  (* the same with the textbook definition of dominance (equal feasibility markers) *)
+  Theorem C18_pbest_textbook : forall (p : particle (T:=T)) pc bc m bv,
+    p_cost p = (pc, m) -> length pc = length bc ->
+    (dominates ltb bc pc -> pbest_step (pareto_compare ltb) p ((bc, m), bv) = ((bc, m), bv)) /\
+    (~ dominates ltb bc pc -> pbest_step (pareto_compare ltb) p ((bc, m), bv) = (p_cost p, p_vec p)).
+  Proof. exact (pbest_pareto_dominates ltb H). Qed.
+
+  (* the whole population sweep, shared feature dicts included: the record of dict k is the fold of
+     the one-particle rule over the particles using dict k, in population order *)
+  Theorem C18_pbest_sweep : forall cmp (pop : list (particle (T:=T))) store,
+    (forall p, In p pop -> p_feat p < length store) ->
+    exists store', update_particle_best cmp pop store = Some store' /\ length store' = length store /\
+      forall k b, nth_error store k = Some b ->
+        nth_error store' k = Some (fold_left (fun b p => pbest_step cmp p b) (users k pop) b).
+  Proof. exact pbest_sweep. Qed.
+End C18_pbest.
+
+(* ------------------------------------------------------------------------------------------------
+   velocity: speed_constriction / update_velocity, for the code's formula
+       delta = (ub - lb) / 2;  v = min(v, delta);  v = max(v, -delta)                               *)
+Section C18_velocity.
+  Context {T : Type} (ltb : T -> T -> bool) (H : SWO ltb).
+  Variables (add sub mul div : T -> T -> T) (neg : T -> T) (two : T).
+
+  (* for every input velocity the result lies between -delta and +delta and is v, delta or -delta *)
+  Theorem C18_velocity_clamped : forall v ub lb,
+    let d := half_range sub div two ub lb in
+    let r := speed_constriction ltb sub div neg two v ub lb in
+    ltb d (neg d) = false ->
+    (ltb r (neg d) = false /\ ltb d r = false) /\
+    (ltb d v = true -> r = d) /\
+    (ltb v (neg d) = true -> r = neg d) /\
+    (ltb d v = false -> ltb v (neg d) = false -> r = v).
+  Proof. exact (speed_constriction_spec ltb H sub div neg two). Qed.
+
+  (* update_velocity of both classes: every component of every particle's new velocity, whatever
+     the random draws, khi, the positions, the personal bests and the selected leaders are *)
+  Theorem C18_velocity_clamped_swarm : forall k params swarm vss,
+    Forall (delta_ok ltb sub div neg two) params ->
+    update_velocity ltb add sub mul div neg two k params swarm = Some vss ->
+    Forall2 (fun p vs => length vs = length (v_vec p) /\
+                         Forall2 (clamped ltb sub div neg two) (firstn (length (v_vec p)) params) vs) swarm vss.
+  Proof. exact (update_velocity_clamped ltb H add sub mul div neg two). Qed.
+End C18_velocity.
+
+(* binary64: it is enough that the computed half range is not negative *)
+Theorem C18_velocity_clamped_float : forall v ub lb : float,
+  let d := ((ub - lb) / 0x1p+1)%float in
+  let r := speed_constriction fltb PrimFloat.sub PrimFloat.div PrimFloat.opp 0x1p+1%float v ub lb in
+  fltb d 0%float = false ->
+  (fltb r (- d)%float = false /\ fltb d r = false) /\ (r = v \/ r = d \/ r = (- d)%float).
+Proof. exact speed_constriction_float. Qed.
+
+(* ------------------------------------------------------------------------------------------------
+   position: update_position of OMOPSO / PSOGA (velocity * -1) and SMPSO (velocity * 0.001) *)
+Section C18_position.
+  Context {T : Type} (ltb : T -> T -> bool) (H : SWO ltb).
+  Variables (add mul : T -> T -> T).
+
+  (* one coordinate, any rule `bounce` for the velocity: complete case analysis *)
+  Theorem C18_position_on_violated_bound : forall bounce lb ub x v, ltb ub lb = false ->
+    let r := position_coord ltb add bounce lb ub x v in
+    inside ltb (lb, ub) (fst r) /\
+    (ltb ub (add x v) = true -> r = (ub, bounce v)) /\
+    (ltb (add x v) lb = true -> r = (lb, bounce v)) /\
+    (ltb ub (add x v) = false -> ltb (add x v) lb = false -> r = (add x v, v)).
+  Proof. exact (position_coord_spec ltb H add). Qed.
+
+  (* OMOPSO, PSOGA: the velocity component of a coordinate that left the box is multiplied by -1 *)
+  Theorem C18_velocity_reversed : forall minus_one lb ub x v, ltb ub lb = false ->
+    ltb ub (add x v) = true \/ ltb (add x v) lb = true ->
+    snd (position_coord ltb add (fun w => mul w minus_one) lb ub x v) = mul v minus_one /\
+    (fst (position_coord ltb add (fun w => mul w minus_one) lb ub x v) = ub \/
+     fst (position_coord ltb add (fun w => mul w minus_one) lb ub x v) = lb).
+  Proof. exact (fun minus_one => position_bounced ltb H add (fun w => mul w minus_one)). Qed.
+
+  (* SMPSO: it is multiplied by 0.001 *)
+  Theorem C18_velocity_damped : forall milli lb ub x v, ltb ub lb = false ->
+    ltb ub (add x v) = true \/ ltb (add x v) lb = true ->
+    snd (position_coord ltb add (fun w => mul w milli) lb ub x v) = mul v milli /\
+    (fst (position_coord ltb add (fun w => mul w milli) lb ub x v) = ub \/
+     fst (position_coord ltb add (fun w => mul w milli) lb ub x v) = lb).
+  Proof. exact C18_velocity_reversed. Qed.
+
+  (* every particle of the swarm is inside the box after update_position *)
+  Theorem C18_position_in_box : forall bounce params swarm res,
+    Forall (wf ltb) params -> Forall (fun p => length (fst p) = length params) swarm ->
+    update_position ltb add bounce params swarm = Some res ->
+    Forall2 (fun p r => in_box ltb params (fst r) /\ length (snd r) = length (snd p)) swarm res.
+  Proof. exact (update_position_in_box ltb H add). Qed.
+End C18_position.
+
+(* ------------------------------------------------------------------------------------------------
+   leaders archive: any sequence of generations (Archive.add* then truncate(size, crowding_distance)) *)
+Section C18_leaders.
+  Context {C K : Type} (cmp : C -> C -> nat) (ceq : C -> C -> bool) (key_leb : K -> C -> C -> bool).
+
+  (* never more than max_population_size members after a generation: no assumption at all *)
+  Theorem C18_leaders_bounded : forall size gs a,
+    Forall (fun a' => length a' <= size) (leaders_trace cmp ceq key_leb size a gs).
+  Proof. exact (leaders_trace_bounded cmp ceq key_leb). Qed.
+
+  (* for every comparator satisfying the archive laws of C04 the members are mutually non-dominated *)
+  Theorem C18_leaders_mutually_nondominated : forall dom wf, ArchLaws cmp ceq dom wf ->
+    forall size gs, offers_wf wf gs ->
+    Forall (fun a' => pairwise (fun y z => dom y z = false /\ dom z y = false) a')
+           (leaders_trace cmp ceq key_leb size [] gs).
+  Proof. exact (leaders_trace_nondominated cmp ceq key_leb). Qed.
+End C18_leaders.
+
+Section C18_leaders_inst.
+  Context {T : Type} (ltb : T -> T -> bool) (H : SWO ltb).
+  Context {K : Type} (key_leb : K -> @aind T -> @aind T -> bool).
+
+  (* with the Pareto comparator *)
+  Theorem C18_leaders_pareto : forall m size gs, offers_wf (awf m) gs ->
+    Forall (fun a => length a <= size /\
+                     pairwise (fun y z => pareto_compare ltb (acost y) (acost z) = 0) a)
+           (leaders_trace (acmp ltb) (aceq ltb) key_leb size [] gs).
+  Proof. exact (fun m => leaders_pareto ltb H m key_leb). Qed.
+
+  (* with the comparator the code installs (Archive() defaults to EpsilonDominance([0.1, 0.1])) and
+     its Python list-equality test: still mutually non-dominated in the Pareto sense, provided the
+     scaling x -> x / eps never reverses an order *)
+  Theorem C18_leaders_eps : forall m sc dist,
+    (forall i a b, ltb a b = false -> ltb (sc i a) (sc i b) = false) ->
+    forall size gs, offers_wf (awf m) gs ->
+    Forall (fun a => length a <= size /\
+                     pairwise (fun y z => pareto_compare ltb (acost y) (acost z) = 0) a)
+           (leaders_trace (lecmp ltb sc dist) (aceq ltb) key_leb size [] gs).
+  Proof. exact (fun m sc dist Hm => leaders_eps ltb H m sc dist Hm key_leb). Qed.
+End C18_leaders_inst.
+
+(* binary64 costs compared with Python's `<` *)
+Theorem C18_leaders_eps_float : forall {K} (key_leb : K -> @aind float -> @aind float -> bool) m sc dist,
+  (forall i a b, fltb a b = false -> fltb (sc i a) (sc i b) = false) ->
+  forall size gs, offers_wf (awf m) gs ->
+  Forall (fun a => length a <= size /\
+                   pairwise (fun y z => pareto_compare fltb (acost y) (acost z) = 0) a)
+         (leaders_trace (lecmp fltb sc dist) (aceq fltb) key_leb size [] gs).
+Proof. exact (fun K key_leb => C18_leaders_eps fltb fltb_SWO key_leb). Qed.
+
 Print Assumptions C18_pbest_never_regresses.
+Print Assumptions C18_pbest_never_regresses_pareto.
+Print Assumptions C18_pbest_textbook.
+Print Assumptions C18_pbest_sweep.
+Print Assumptions C18_velocity_clamped.
+Print Assumptions C18_velocity_clamped_swarm.
+Print Assumptions C18_velocity_clamped_float.
+Print Assumptions C18_position_on_violated_bound.
+Print Assumptions C18_velocity_reversed.
+Print Assumptions C18_velocity_damped.
+Print Assumptions C18_position_in_box.
+Print Assumptions C18_leaders_bounded.
+Print Assumptions C18_leaders_mutually_nondominated.
+Print Assumptions C18_leaders_pareto.
+Print Assumptions C18_leaders_eps.
+Print Assumptions C18_leaders_eps_float.
+
+(* ------------------------------------------------------------------------------------------------
+   non-vacuity: concrete non-trivial inputs meet the hypotheses *)
+Local Open Scope Z_scope.
+
+(* two particles sharing one features dict (as PSOGA creates them) and one on its own *)
+Example C18_ex_pbest :
+  let pop := [ {| p_cost := ([1; 3], 1); p_vec := [10; 10]; p_feat := 0%nat |};
+               {| p_cost := ([2; 2], 1); p_vec := [20; 20]; p_feat := 1%nat |};
+               {| p_cost := ([0; 5], 1); p_vec := [30; 30]; p_feat := 0%nat |} ] in
+  let store := [ (([1; 2], 1), [7; 7]); (([3; 3], 1), [8; 8]) ] in
+  (forall p, In p pop -> (p_feat p < length store)%nat) /\
+  update_particle_best (pareto_compare Z.ltb) pop store =
+    Some [ (([0; 5], 1), [30; 30]); (([2; 2], 1), [20; 20]) ] /\
+  dominates Z.ltb [1; 2] [1; 3] /\ ~ dominates Z.ltb [3; 3] [2; 2].
+Proof.
+  cbn zeta. split; [|split; [vm_compute; reflexivity|split]].
+  - intros p [<-|[<-|[<-|[]]]]; cbn; auto.
+  - split; [repeat constructor; discriminate | right; left; reflexivity].
+  - intros [W _]. inversion W as [|? ? ? ? E _]; subst. discriminate E.
+Qed.
+
+(* delta = (10 - 0) / 2 = 5 is not below -5; far-out velocities are cut to +-5 *)
+Example C18_ex_velocity :
+  delta_ok Z.ltb Z.sub Z.div Z.opp 2 (0, 10) /\
+  speed_constriction Z.ltb Z.sub Z.div Z.opp 2 1000 10 0 = 5 /\
+  speed_constriction Z.ltb Z.sub Z.div Z.opp 2 (-1000) 10 0 = -5 /\
+  speed_constriction Z.ltb Z.sub Z.div Z.opp 2 3 10 0 = 3 /\
+  delta_ok Z.ltb Z.sub Z.div Z.opp 2 (4, 4) /\
+  speed_constriction Z.ltb Z.sub Z.div Z.opp 2 7 4 4 = 0.
+Proof. vm_compute. repeat split. Qed.
+
+Example C18_ex_velocity_float :
+  fltb ((0x1p+3 - 0x1p+1) / 0x1p+1)%float 0%float = false /\
+  speed_constriction fltb PrimFloat.sub PrimFloat.div PrimFloat.opp 0x1p+1%float 0x1p+100%float 0x1p+3%float 0x1p+1%float = 0x1.8p+1%float.
+Proof. vm_compute. repeat split. Qed.
+
+(* box [0, 10]: 8 + 5 leaves through the upper bound, 1 - 7 through the lower one *)
+Example C18_ex_position :
+  Z.ltb 10 0 = false /\
+  position_coord Z.ltb Z.add (fun w => w * -1) 0 10 8 5 = (10, -5) /\
+  position_coord Z.ltb Z.add (fun w => w * -1) 0 10 1 (-7) = (0, 7) /\
+  position_coord Z.ltb Z.add (fun w => w * -1) 0 10 4 3 = (7, 3) /\
+  update_position Z.ltb Z.add (fun w => w * -1) [(0, 10); (5, 5)] [([8; 5], [5; 1]); ([1; 9], [-7; -20])]
+    = Some [([10; 5], [-5; -1]); ([0; 5], [7; 20])] /\
+  Forall (wf Z.ltb) [(0, 10); (5, 5)].
+Proof. vm_compute. repeat split; repeat constructor. Qed.
+
+(* three generations into an archive of size 2 with the epsilon comparator (scaling x -> 10 x,
+   tie-break sums 0): offers are rejected, evict members, and the archive is cut by crowding distance *)
+Example C18_ex_leaders :
+  let sc := fun (_ : nat) (x : Z) => 10 * x in
+  let dist := fun (_ : @aind Z) => 0 in
+  let key := fun (tbl : list (nat * Z)) (x y : @aind Z) =>
+               negb (Z.ltb (snd (nth (fst y) tbl (0%nat, 0))) (snd (nth (fst x) tbl (0%nat, 0)))) in
+  let i0 : @aind Z := (0%nat, ([3; 1], 1)) in let i1 : @aind Z := (1%nat, ([2; 2], 1)) in
+  let i2 : @aind Z := (2%nat, ([1; 3], 1)) in let i3 : @aind Z := (3%nat, ([2; 2], 1)) in
+  let i4 : @aind Z := (4%nat, ([0; 4], 1)) in let i5 : @aind Z := (5%nat, ([1; 1], 1)) in
+  let tbl := [(0%nat, 9); (1%nat, 2); (2%nat, 7); (3%nat, 0); (4%nat, 5); (5%nat, 1)] in
+  let gs := [([i0; i1; i2; i3], tbl); ([i4], tbl); ([i5], tbl)] in
+  (forall i a b, Z.ltb a b = false -> Z.ltb (sc i a) (sc i b) = false) /\
+  offers_wf (awf 2) gs /\
+  map (map fst) (leaders_trace (lecmp Z.ltb sc dist) (aceq Z.ltb) key 2%nat [] gs) =
+    [[0; 2]; [0; 2]; [5]]%nat.
+Proof.
+  cbn zeta. split; [|split].
+  - intros i a b. rewrite !Z.ltb_ge. intros; nia.
+  - repeat constructor.
+  - vm_compute. reflexivity.
+Qed.
